@@ -364,8 +364,8 @@ impl Interpreter {
                 state.stack.push(sum.to_signed_bytes_le());
             }
             OpCodes::OP_SUB => {
-                let a = state.stack.pop_bigint()?;
                 let b = state.stack.pop_bigint()?;
+                let a = state.stack.pop_bigint()?;
 
                 state.stack.push_bigint(a - b)?;
             }
@@ -376,8 +376,8 @@ impl Interpreter {
                 state.stack.push_bigint(a * b)?;
             }
             OpCodes::OP_DIV => {
-                let a = state.stack.pop_bigint()?;
                 let b = state.stack.pop_bigint()?;
+                let a = state.stack.pop_bigint()?;
 
                 if b == BigInt::from(0) {
                     return Err(InterpreterError::InvalidStackOperation("OP_DIV by zero"));
@@ -385,8 +385,8 @@ impl Interpreter {
                 state.stack.push_bigint(a / b)?;
             }
             OpCodes::OP_MOD => {
-                let a = state.stack.pop_bigint()?;
                 let b = state.stack.pop_bigint()?;
+                let a = state.stack.pop_bigint()?;
 
                 if b == BigInt::from(0) {
                     return Err(InterpreterError::InvalidStackOperation("OP_MOD by zero"));
@@ -442,26 +442,26 @@ impl Interpreter {
                 state.stack.push_bool(a != b)?;
             }
             OpCodes::OP_LESSTHAN => {
-                let a = state.stack.pop_bigint()?;
                 let b = state.stack.pop_bigint()?;
+                let a = state.stack.pop_bigint()?;
 
                 state.stack.push_bool(a < b)?;
             }
             OpCodes::OP_LESSTHANOREQUAL => {
-                let a = state.stack.pop_bigint()?;
                 let b = state.stack.pop_bigint()?;
+                let a = state.stack.pop_bigint()?;
 
                 state.stack.push_bool(a <= b)?;
             }
             OpCodes::OP_GREATERTHAN => {
-                let a = state.stack.pop_bigint()?;
                 let b = state.stack.pop_bigint()?;
+                let a = state.stack.pop_bigint()?;
 
                 state.stack.push_bool(a > b)?;
             }
             OpCodes::OP_GREATERTHANOREQUAL => {
-                let a = state.stack.pop_bigint()?;
                 let b = state.stack.pop_bigint()?;
+                let a = state.stack.pop_bigint()?;
 
                 state.stack.push_bool(a >= b)?;
             }
